@@ -69,6 +69,8 @@ def ct_setup(ctx):
         "sub_defaults.get": lambda c, a, k: False, "is_subclass_spec": lambda c, a, k: a[0] is not None,
         "Namespace": lambda c, a, k: Rec("Namespace", attrs={"tag": "fresh namespace", "kw": dict(k)}),
         "adapt_typehints": adapt, "indent_text": lambda c, a, k: a[0],
+        # contract of subclass_spec_as_namespace (C14 unit): a spec that already is a Namespace is returned itself (no copy)
+        "subclass_spec_as_namespace": lambda c, a, k: a[0],
     }
     ctx.classes.add("NestedArg", ["tuple"])
     consts = {"NestedArg": ClassRef("NestedArg"), "PathError": ClassRef("PathError")}
